@@ -23,6 +23,26 @@ Definition plan_case_ok (c : plan_case) : bool :=
 Definition plan_mismatches (cs : list plan_case) : list N :=
   map pc_id (filter (fun c => negb (plan_case_ok c)) cs).
 
+(* ---- C20 / C08: histories of creations on one engine instance ----------- *)
+
+Record histplan_case := mkHPC {
+  hpc_id : N; hpc_fallback : bool; hpc_creations : list creation; hpc_outcomes : list outcome;
+  hpc_false : nat; hpc_true : nat }.       (* absolute counter values at the end *)
+
+Fixpoint outcomes_eqb (a b : list outcome) : bool :=
+  match a, b with
+  | [], [] => true
+  | x :: r, y :: r' => outcome_eqb x y && outcomes_eqb r r'
+  | _, _ => false
+  end.
+
+Definition histplan_case_ok (c : histplan_case) : bool :=
+  let '(s, os) := run_creations (hpc_fallback c) (mkES 0 0) (hpc_creations c) in
+  outcomes_eqb os (hpc_outcomes c) && Nat.eqb (es_false s) (hpc_false c) && Nat.eqb (es_true s) (hpc_true c).
+
+Definition histplan_mismatches (cs : list histplan_case) : list N :=
+  map hpc_id (filter (fun c => negb (histplan_case_ok c)) cs).
+
 (* ---- C02: selector correspondence ------------------------------------- *)
 From Verif Require Import Base Grid Select Shard Exec.
 Open Scope Z_scope.
